@@ -789,6 +789,8 @@ void judge_faulty(const Encoded& enc, const Pic& reference, const string& disk, 
 
 static void run() {
   vfs::reset();
+  // the caller's FILE* may be unbuffered or have a tiny buffer: chunking then reaches the library's loops
+  vfs::set_stdio_buffering(pick({0, 0, 1, 16, 255, 256, 4096}, "stdio.buffering"));
   Pic src = gen_pic();
   unsigned container = choose(7, "container"); // 0 PPM own, 1 BMP own, 2 PNG own, 3 P5, 4 P6 foreign, 5 P7 foreign, 6 BMP foreign
   bool own = container <= 2;
